@@ -226,7 +226,7 @@ class World:
         def check(cfg, value, _path=path, _name=name):
             try:
                 out = run_validator(_name, value, cfg, node)
-            except ValueError:
+            except Exception:
                 self.vlog.append(("field", _path, _name, id(cfg), False))
                 raise
             self.vlog.append(("field", _path, _name, id(cfg), True))
